@@ -290,6 +290,11 @@ def E_loop_of(f, n):
 
 
 VARIANTS = [
+    dict(name="type-directory-selects-plain", file="lib/BuildSystem/BuildNode.cpp",
+         old="    } else if (value == \"directory\") {\n      type = NodeType::Directory;", new="    } else if (value == \"directory\") {\n      type = NodeType::Plain;",
+         expect=("R-NODE-TYPE-TABLE", "type: directory")),
+    dict(name="is-directory-true-selects-structure", file="lib/BuildSystem/BuildNode.cpp",
+         old="    if (value == \"true\") {\n      type = NodeType::Directory;", new="    if (value == \"true\") {\n      type = NodeType::DirectoryStructure;", expect=("R-NODE-TYPE-TABLE", "is-directory: true")),
     dict(name="filtered-listing-drops-stat-dependency", file="lib/BuildSystem/BuildSystem.cpp",
          edits=[("    ti.request(BuildKey::makeStat(path).toData(), /*inputID=*/1);\n", ""), ("    if (inputID == 1) {\n      directoryValue = BuildValue::fromData(value);", "    if (inputID == 0) {\n      directoryValue = BuildValue::fromData(value);")],
          expect=("R-LISTING-RESCAN", "depends-on-stat")),
